@@ -161,7 +161,11 @@ func c03(tier string) int {
 func c04(tier string) int {
 	run := ev.NewRun("C04", tier, "model_checking")
 	wh.InstallLogicalClock()
-	shapes := []string{"plain", "ext", "junk1", "otherlog", "stale-own-valid", "stale-own-invalid", "dup-logsig"}
+	// junk96..99: around the note format's limit of 100 signature lines (log
+	// line + J unknown lines + one line per witness key): the largest J that
+	// still fits must be cosigned with the log's line intact, one more must be
+	// refused.
+	shapes := []string{"plain", "ext", "junk1", "otherlog", "stale-own-valid", "stale-own-invalid", "dup-logsig", "junk96", "junk97", "junk98", "junk99"}
 	n := 6
 	if tier == "thorough" {
 		n = 9
@@ -173,8 +177,12 @@ func c04(tier string) int {
 	// One configuration on the real wall clock with the inclusive window.
 	c04WallClock(run)
 	wh.InstallLogicalClock()
-	for _, sg := range []string{"cosig", "legacy+cosig", "legacy+cosig+cosig2"} {
+	for nk, sg := range []string{"cosig", "legacy+cosig", "legacy+cosig+cosig2"} {
 		for _, sh := range shapes {
+			var j int
+			if n, _ := fmt.Sscanf(sh, "junk%d", &j); n == 1 && 1+j+nk+1 > 100 {
+				continue // does not fit once cosigned: refused
+			}
 			for _, k := range []string{"first-use", "growth", "refresh"} {
 				if run.HistGet("accepted", sg+"|"+sh+"|"+k) == 0 {
 					run.Vacuous("no accepted %s step for signers %s shape %s", k, sg, sh)
